@@ -13,9 +13,15 @@ def faulty : DirState → Bool
   | .missing | .unscannable | .unreadable => true
   | _ => false
 
+/-- what a faulty directory itself contributes: nothing, or — if it exists but cannot be listed —
+one error report under its own path -/
+def faultReport (p : Nat) (d : Str) : DirState → List ScanItem
+  | .unreadable => [⟨d, p, none⟩]
+  | _ => []
+
 theorem scanDir_faulty (p : Nat) (d : Str) (st : DirState) (h : faulty st = true) :
-    scanDir true p d st = some [] := by
-  cases st <;> simp [faulty] at h <;> simp [scanDir]
+    scanDir true p d st = some (faultReport p d st) := by
+  cases st <;> simp [faulty] at h <;> simp [scanDir, faultReport]
 
 theorem scanFrom_append (skip : Bool) : ∀ (pre post : List (Str × DirState)) (p : Nat),
     (∀ d ∈ pre, (scanDir skip 0 d.1 d.2).isSome ∨ True) →
@@ -54,13 +60,14 @@ theorem scanDir_total (p : Nat) (d : Str) (st : DirState) : (scanDir true p d st
 
 /-- **C13 (a faulty directory hides nothing)**: inserting a missing, unscannable or
 unreadable directory anywhere in the list leaves every other directory's files in
-the scan, in the same relative precedence (priorities after it shift by one). -/
+the scan, in the same relative precedence (priorities after it shift by one); the faulty
+directory contributes nothing but, if it cannot be listed, its own error report. -/
 theorem C13_scan_continues (pre post : List (Str × DirState)) (d : Str) (st : DirState)
     (h : faulty st = true) (p : Nat) :
     scanFrom true p (pre ++ (d, st) :: post) =
-      scanFrom true p pre ++ scanFrom true (p + pre.length + 1) post := by
+      scanFrom true p pre ++ faultReport (p + pre.length) d st ++ scanFrom true (p + pre.length + 1) post := by
   rw [scanFrom_append true pre _ p (fun _ _ => Or.inr trivial) (fun q x _ => scanDir_total q x.1 x.2)]
-  simp only [scanFrom, scanDir_faulty _ _ _ h, List.nil_append]
+  simp only [scanFrom, scanDir_faulty _ _ _ h, List.append_assoc]
 
 /-- **C13 (isolation)**: whatever faults are placed among directories and files, every
 name resolves exactly as the precedence rule says over the files that did load. -/
